@@ -443,6 +443,25 @@ def insertionPoint (s : Sess) (spans : List OSpan) (index : Nat) : Sess × Optio
 
 def dedupRefs (l : List RunRef) : List RunRef := l.eraseDups
 
+/-- start split of `_resolve_runs_at_range`: (session, working runs, adjustment) -/
+def startSplit (s : Sess) (working : List RunRef) (w0 : RunRef) (localStart : Nat) : Sess × List RunRef × Nat :=
+  if localStart > 0 then
+    let (s', _, r) := s.splitRun w0 localStart
+    (s', r :: (working.drop 1).map (shiftRef w0), localStart)
+  else (s, working, 0)
+
+/-- end split of `_resolve_runs_at_range` -/
+def endSplit (s1 : Sess) (working1 : List RunRef) (sameRun : Bool) (adj localEnd : Nat) : Sess × List RunRef :=
+  match working1.getLast? with
+  | none => (s1, working1)
+  | some lastRun =>
+    let localEnd' := if sameRun && adj > 0 then localEnd - adj else localEnd
+    let len := ((s1.getRun lastRun).map fun r => (runText r).length).getD 0
+    if 0 < localEnd' && localEnd' < len then
+      let (s2, l, _) := s1.splitRun lastRun localEnd'
+      (s2, working1.dropLast ++ [l])
+    else (s1, working1)
+
 /-- `_resolve_runs_at_range` -/
 def resolveRuns (s : Sess) (spans : List OSpan) (start stop : Nat) : Sess × List RunRef :=
   let affected := spans.filter fun o => o.stop > start && o.start < stop
@@ -452,23 +471,9 @@ def resolveRuns (s : Sess) (spans : List OSpan) (start stop : Nat) : Sess × Lis
   | some first, some last, w0 :: _ =>
     let localStart := offsetInRun spans first + (start - first.start)
     let localEnd := offsetInRun spans last + (min last.stop stop - last.start)
-    let sameRun := first.sp.run = last.sp.run
-    -- 1. start split
-    let (s1, working1, adj) :=
-      if localStart > 0 then
-        let (s', _, r) := s.splitRun w0 localStart
-        (s', r :: (working.drop 1).map (shiftRef w0), localStart)
-      else (s, working, 0)
-    -- 2. end split
-    match working1.getLast? with
-    | none => (s1, working1)
-    | some lastRun =>
-      let localEnd' := if sameRun && adj > 0 then localEnd - adj else localEnd
-      let len := ((s1.getRun lastRun).map fun r => (runText r).length).getD 0
-      if 0 < localEnd' && localEnd' < len then
-        let (s2, l, _) := s1.splitRun lastRun localEnd'
-        (s2, working1.dropLast ++ [l])
-      else (s1, working1)
+    let sameRun : Bool := first.sp.run = last.sp.run
+    let r1 := startSplit s working w0 localStart
+    endSplit r1.1 r1.2.1 sameRun r1.2.2 localEnd
   | _, _, _ => (s, [])
 
 /-- `w:t` → `w:delText` -/
@@ -648,6 +653,106 @@ def nestedReplace (s : Sess) (insId : Str) (newText : Str) (comment : Option Str
         | none =>
           ({ s2 with doc := modPara s2.doc pp fun p => ({ p with nodes := insertNodesAt p.nodes idx [insNode] }, []) }, true)
 
+/-- the INSERTION branch once the anchor run and its paragraph are known: style source, `track_insert`,
+placement next to the anchor (next to the enclosing mark when the anchor sits in one), comment -/
+def placeInsertion (s1 : Sess) (a : RunRef) (before : Bool) (p : Para) (newText : Str) (comment : Option Str) : Sess :=
+  let anchorRun := Doc.getRun p.nodes a.loc
+  let styleRun := if before then anchorRun
+    else match nextRun p.nodes a.loc with
+      | none => anchorRun
+      | some nr => if endsWithSpace newText then some nr else anchorRun
+  let (s2, ins, extra) := trackInsert s1 newText styleRun true p comment false
+  let at_ := if before then a.loc.node else a.loc.node + 1
+  match ins with
+  | none => { s2 with doc := modPara s2.doc a.para fun p => (p, extra) }
+  | some insNode =>
+    match truthyStr comment with
+    | some c =>
+      let (s3, cid) := s2.addComment c none
+      { s3 with doc := modPara s3.doc a.para fun p =>
+          ({ p with nodes := attachCommentNodes (insertNodesAt p.nodes at_ [insNode]) at_ at_ cid }, extra) }
+    | none =>
+      { s2 with doc := modPara s2.doc a.para fun p =>
+          ({ p with nodes := insertNodesAt p.nodes at_ [insNode] }, extra) }
+
+/-- the INSERTION branch of `_apply_single_edit_indexed` -/
+def applyInsertion (s : Sess) (spans : List OSpan) (start : Nat) (newText : Str) (comment : Option Str) : Sess × Bool :=
+  let r0 := insertionPoint s spans start
+  let firstLine := (splitLines newText).headD []
+  let blockLevel := (parseMdStyle firstLine).2.isSome || newText.any (fun c => c = '\n' || c = '\r')
+  let r1 : Sess × Option RunRef × Bool :=
+    if r0.2.2 && start ≠ 0 && blockLevel then
+      let ra := insertionAnchor s spans start
+      (ra.1, ra.2, false)
+    else r0
+  match r1.2.1 with
+  | none => (r1.1, false)
+  | some a =>
+    match getPara r1.1.doc a.para with
+    | none => (r1.1, false)
+    | some p => (placeInsertion r1.1 a r1.2.2 p newText comment, true)
+
+/-- DELETION / MODIFICATION once the target runs are known (`sPre` = session before the deletions, whose last
+target run is the style source): one `w:del` per run, then the `w:ins` behind the last one, then the comment -/
+def replaceTargets (sPre : Sess) (targets : List RunRef) (firstT lastT : RunRef) (op : EOp) (newText : Str)
+    (comment : Option Str) : Sess :=
+  -- one w:del per run, each with its own id
+  let s2 := targets.foldl (fun acc t => (trackDelete acc t).1) sPre
+  if op = .deletion then
+    -- a pure deletion keeps its comment: anchored on the deletion marks
+    match truthyStr comment with
+    | none => s2
+    | some c =>
+      let (s3, cid) := s2.addComment c none
+      if firstT.para = lastT.para then
+        { s3 with doc := modPara s3.doc lastT.para fun p =>
+            ({ p with nodes := attachCommentNodes p.nodes firstT.loc.node lastT.loc.node cid }, []) }
+      else
+        let d1 := modPara s3.doc lastT.para fun p =>
+          ({ p with nodes := insertNodesAt p.nodes (lastT.loc.node + 1) [.ce cid, .run (crefRun cid)] }, [])
+        let d2 := modPara d1 firstT.para fun p =>
+          ({ p with nodes := insertNodesAt p.nodes firstT.loc.node [.cs cid] }, [])
+        { s3 with doc := d2 }
+  else if newText.isEmpty then s2
+  else
+    match getPara s2.doc lastT.para with
+    | none => s2
+    | some p =>
+      let (cleanText, lvl) := parseMdStyle newText
+      let text := match lvl with
+        | some l => if styleName p.style = "Heading ".toList ++ natStr l then cleanText else newText
+        | none => newText
+      let hasMd := text.contains '_' || (text.zip (text.drop 1)).any (fun (a, b) => a = '*' && b = '*')
+      let styleRun := (sPre.getRun lastT)
+      let (s3, ins, extra) := trackInsert s2 text styleRun true p comment (!hasMd)
+      let at_ := lastT.loc.node + 1
+      match ins with
+      | none => { s3 with doc := modPara s3.doc lastT.para fun p => (p, extra) }
+      | some insNode =>
+        match truthyStr comment with
+        | some c =>
+          let (s4, cid) := s3.addComment c none
+          if firstT.para = lastT.para then
+            { s4 with doc := modPara s4.doc lastT.para fun p =>
+                ({ p with nodes := attachCommentNodes (insertNodesAt p.nodes at_ [insNode]) firstT.loc.node at_ cid }, extra) }
+          else
+            let d1 := modPara s4.doc lastT.para fun p =>
+              ({ p with nodes := insertNodesAt (insertNodesAt p.nodes at_ [insNode]) (at_ + 1) [.ce cid, .run (crefRun cid)] }, extra)
+            let d2 := modPara d1 firstT.para fun p =>
+              ({ p with nodes := insertNodesAt p.nodes firstT.loc.node [.cs cid] }, [])
+            { s4 with doc := d2 }
+        | none =>
+          { s3 with doc := modPara s3.doc lastT.para fun p =>
+              ({ p with nodes := insertNodesAt p.nodes at_ [insNode] }, extra) }
+
+/-- the DELETION / MODIFICATION branch of `_apply_single_edit_indexed` -/
+def applyReplace (s : Sess) (spans : List OSpan) (op : EOp) (start len : Nat) (newText : Str)
+    (comment : Option Str) : Sess × Bool :=
+  let r := resolveRuns s spans start (start + len)
+  match r.2.head?, r.2.getLast? with
+  | some firstT, some lastT => (replaceTargets r.1 r.2 firstT lastT op newText comment, true)
+  | _, _ => (r.1, false)
+
 /-- `_apply_single_edit_indexed` -/
 def applyIndexed (s : Sess) (clean : Bool) (start len : Nat) (newText : Str) (comment : Option Str)
     (op : Option EOp) : Sess × Bool :=
@@ -660,92 +765,8 @@ def applyIndexed (s : Sess) (clean : Bool) (start len : Nat) (newText : Str) (co
     | some id => nestedReplace s id newText comment
     | none =>
       match op with
-      | .insertion =>
-        let (s0, anchor0, before0) := insertionPoint s spans start
-        let firstLine := (splitLines newText).headD []
-        let blockLevel := (parseMdStyle firstLine).2.isSome || newText.any (fun c => c = '\n' || c = '\r')
-        let (s1, anchor, before) :=
-          if before0 && start ≠ 0 && blockLevel then
-            let (s', a) := insertionAnchor s spans start
-            (s', a, false)
-          else (s0, anchor0, before0)
-        match anchor with
-        | none => (s1, false)
-        | some a =>
-          match getPara s1.doc a.para with
-          | none => (s1, false)
-          | some p =>
-            let anchorRun := Doc.getRun p.nodes a.loc
-            let styleRun := if before then anchorRun
-              else match nextRun p.nodes a.loc with
-                | none => anchorRun
-                | some nr => if endsWithSpace newText then some nr else anchorRun
-            let (s2, ins, extra) := trackInsert s1 newText styleRun true p comment false
-            let at_ := if before then a.loc.node else a.loc.node + 1
-            match ins with
-            | none => ({ s2 with doc := modPara s2.doc a.para fun p => (p, extra) }, true)
-            | some insNode =>
-              match truthyStr comment with
-              | some c =>
-                let (s3, cid) := s2.addComment c none
-                ({ s3 with doc := modPara s3.doc a.para fun p =>
-                    ({ p with nodes := attachCommentNodes (insertNodesAt p.nodes at_ [insNode]) at_ at_ cid }, extra) }, true)
-              | none =>
-                ({ s2 with doc := modPara s2.doc a.para fun p =>
-                    ({ p with nodes := insertNodesAt p.nodes at_ [insNode] }, extra) }, true)
-      | _ =>
-        let (s1, targets) := resolveRuns s spans start (start + len)
-        match targets.head?, targets.getLast? with
-        | some firstT, some lastT =>
-          -- one w:del per run, each with its own id
-          let s2 := targets.foldl (fun acc t => (trackDelete acc t).1) s1
-          if op = .deletion then
-            -- a pure deletion keeps its comment: anchored on the deletion marks
-            match truthyStr comment with
-            | none => (s2, true)
-            | some c =>
-              let (s3, cid) := s2.addComment c none
-              if firstT.para = lastT.para then
-                ({ s3 with doc := modPara s3.doc lastT.para fun p =>
-                    ({ p with nodes := attachCommentNodes p.nodes firstT.loc.node lastT.loc.node cid }, []) }, true)
-              else
-                let d1 := modPara s3.doc lastT.para fun p =>
-                  ({ p with nodes := insertNodesAt p.nodes (lastT.loc.node + 1) [.ce cid, .run (crefRun cid)] }, [])
-                let d2 := modPara d1 firstT.para fun p =>
-                  ({ p with nodes := insertNodesAt p.nodes firstT.loc.node [.cs cid] }, [])
-                ({ s3 with doc := d2 }, true)
-          else if newText.isEmpty then (s2, true)
-          else
-            match getPara s2.doc lastT.para with
-            | none => (s2, true)
-            | some p =>
-              let (cleanText, lvl) := parseMdStyle newText
-              let text := match lvl with
-                | some l => if styleName p.style = "Heading ".toList ++ natStr l then cleanText else newText
-                | none => newText
-              let hasMd := text.contains '_' || (text.zip (text.drop 1)).any (fun (a, b) => a = '*' && b = '*')
-              let styleRun := (s1.getRun lastT)
-              let (s3, ins, extra) := trackInsert s2 text styleRun true p comment (!hasMd)
-              let at_ := lastT.loc.node + 1
-              match ins with
-              | none => ({ s3 with doc := modPara s3.doc lastT.para fun p => (p, extra) }, true)
-              | some insNode =>
-                match truthyStr comment with
-                | some c =>
-                  let (s4, cid) := s3.addComment c none
-                  if firstT.para = lastT.para then
-                    ({ s4 with doc := modPara s4.doc lastT.para fun p =>
-                        ({ p with nodes := attachCommentNodes (insertNodesAt p.nodes at_ [insNode]) firstT.loc.node at_ cid }, extra) }, true)
-                  else
-                    let d1 := modPara s4.doc lastT.para fun p =>
-                      ({ p with nodes := insertNodesAt (insertNodesAt p.nodes at_ [insNode]) (at_ + 1) [.ce cid, .run (crefRun cid)] }, extra)
-                    let d2 := modPara d1 firstT.para fun p =>
-                      ({ p with nodes := insertNodesAt p.nodes firstT.loc.node [.cs cid] }, [])
-                    ({ s4 with doc := d2 }, true)
-                | none =>
-                  ({ s3 with doc := modPara s3.doc lastT.para fun p =>
-                      ({ p with nodes := insertNodesAt p.nodes at_ [insNode] }, extra) }, true)
-        | _, _ => (s1, false)
+      | .insertion => applyInsertion s spans start newText comment
+      | _ => applyReplace s spans op start len newText comment
 
 structure IEdit where
   index : Nat
